@@ -64,6 +64,21 @@ def local_value(chk, fi: FuncInfo, name: str) -> Any:
 
 
 def check_alphabet(chk) -> None:
+    """L6: what the tables do is decided by value first - the fill on every level with the library's decoder reading it back,
+    the decoder on every balanced notation, the multi-strand text on every structure character (checks/c01e.py).  The folded
+    tables below are the fallback when one of these cannot be evaluated."""
+    check_fill(chk)
+    check_decoder(chk)
+    check_text_forms(chk)
+    if decided(chk, "fill") and decided(chk, "decoder") and decided(chk, "text-forms"):
+        return
+    try:
+        check_alphabet_pinned(chk)
+    except AnalysisError as ex:
+        chk.error("alphabet-encoder", chk.repo.func(MOD, "BpSeq.__make_dot_bracket").where, f"bracket tables not readable: {ex}")
+
+
+def check_alphabet_pinned(chk) -> None:
     repo = chk.repo
     mk = repo.func(MOD, "BpSeq.__make_dot_bracket")
     post = repo.func(MOD, "DotBracket.__post_init__")
@@ -576,16 +591,17 @@ def region_triple_ok(env: SymEnv, elt: ast.expr, stem_atom: Any) -> Tuple[bool, 
     return v == want, v
 
 
-def check_regions(chk) -> None:
-    """L2: every region triple is (first 5' index, its partner, length) of one stem."""
+def check_regions(chk, with_fcfs: bool = True) -> None:
+    """L2: every region triple is (first 5' index, its partner, length) of one stem.  with_fcfs=False reads only BpSeq.__regions
+    (for a property that does not depend on the FCFS encoder, which builds its own region list)."""
     repo = chk.repo
     n = 0
     from checks import c01e
 
-    todo = ["BpSeq.__regions", "BpSeq.fcfs"]
+    todo = ["BpSeq.__regions", "BpSeq.fcfs"] if with_fcfs else ["BpSeq.__regions"]
     if fact_first(chk, "regions", repo.func(MOD, "BpSeq.__regions").where, c01e.regions_fact(chk)):
         todo.remove("BpSeq.__regions")
-    if decided(chk, "fcfs") or (not chk.__dict__.get("fcfs_tried") and fact_first(chk, "fcfs", repo.func(MOD, "BpSeq.fcfs").where, _fcfs_fact_once(chk))):
+    if with_fcfs and (decided(chk, "fcfs") or (not chk.__dict__.get("fcfs_tried") and fact_first(chk, "fcfs", repo.func(MOD, "BpSeq.fcfs").where, _fcfs_fact_once(chk)))):
         todo.remove("BpSeq.fcfs")
     for q in todo:
         fi = repo.func(MOD, q)
@@ -634,7 +650,7 @@ def check_regions(chk) -> None:
                     chk.error("region-triple", fi.where, "regions are appended outside a plain loop over the stems")
             else:
                 chk.error("region-triple", fi.where, "construction of the region list not recognised")
-    chk.floor("region-triple", 2)
+    chk.floor("region-triple", 2 if with_fcfs else 1)
 
 
 def _fcfs_fact_once(chk) -> Optional[str]:
@@ -774,6 +790,9 @@ def check_fill(chk) -> None:
     from checks import c01e
 
     fi = chk.repo.func(MOD, "BpSeq.__make_dot_bracket")
+    if chk.__dict__.get("fill_done"):
+        return
+    chk.__dict__["fill_done"] = True
     if decided(chk, "fill") or fact_first(chk, "fill", fi.where, c01e.fill_fact(chk)):
         return
     check_fill_pinned(chk)
@@ -899,6 +918,9 @@ def check_decoder(chk) -> None:
     from checks import c01e
 
     fi = chk.repo.func(MOD, "DotBracket.__post_init__")
+    if chk.__dict__.get("decoder_done"):
+        return
+    chk.__dict__["decoder_done"] = True
     if fact_first(chk, "decoder", fi.where, c01e.decoder_fact(chk)):
         return
     check_decoder_pinned(chk)
@@ -1294,6 +1316,9 @@ def check_text_forms(chk) -> None:
     repo = chk.repo
     from checks import c01e
 
+    if chk.__dict__.get("text_forms_done"):
+        return
+    chk.__dict__["text_forms_done"] = True
     pi = repo.func(MOD, "BpSeq.__post_init__")
     chk.note_function(pi)
     if not fact_first(chk, "bpseq-pairs", pi.where, c01e.post_init_fact(chk)):
